@@ -162,6 +162,52 @@ def check_call_sites(a, b):
     return out
 
 
+def check_store_into(a, b):
+    """the result of an ABIReturnSubroutine returning `a` stored into a variable of a differently laid out type `b` must
+    raise - from an ordinary caller, and from inside the (recursive) routine itself, where its declaration is still being
+    built; compiled without and with frame pointers"""
+    import pyteal as pt
+
+    out = []
+    sa, sb = spec_of(pt, a), spec_of(pt, b)
+    try:
+        ann = sa.annotation_type()
+    except Exception:  # noqa
+        return out
+    for where in ("caller", "recursive"):
+        for version in (6, 8):
+            try:
+                diff.reset_pyteal_state()
+                ref = []
+
+                def inner(n, output, where=where):
+                    vb = sb.new_instance()
+                    rec = pt.If(n.get() > pt.Int(0)).Then(pt.Seq(n.set(n.get() - pt.Int(1)), ref[0](n).store_into(vb if where == "recursive" else sa.new_instance())))
+                    return pt.Seq(rec, output.decode(pt.Bytes(b"")))
+
+                g = {"TA": ann, "Expr": pt.Expr, "pt": pt, "inner": inner}
+                exec(compile("def fn(n: pt.abi.Uint64, *, output: TA) -> Expr:\n    return inner(n, output)\n", "<c19>", "exec", dont_inherit=True), g)
+                f = pt.ABIReturnSubroutine(g["fn"])
+                ref.append(f)
+                x = pt.abi.Uint64()
+                dst = sb.new_instance() if where == "caller" else sa.new_instance()
+                prog = pt.Seq(x.set(pt.Int(2)), f(x).store_into(dst), pt.Int(1))
+                pt.compileTeal(prog, pt.Mode.Application, version=version)
+                out.append(("store_into-accepts-different-layout", "v%d: the %s result of an ABIReturnSubroutine was stored into a %s variable (%s; layouts %s vs %s) without an error" % (
+                    version, sa, sb, "inside the recursive routine itself" if where == "recursive" else "in the caller", layout(a), layout(b))))
+                return out
+            except diff.pyteal_errors():
+                pass
+            except RecursionError:
+                pass
+            except Exception as e:  # noqa
+                out.append(("store_into-crash:%s" % type(e).__name__, "store_into(%s <- %s, %s, v%d) raised %r" % (sb, sa, where, version, e)))
+                return out
+            finally:
+                diff.reset_pyteal_state()
+    return out
+
+
 def check_set(a, b):
     """assignment path: <B instance>.set(<A instance>) with differently shaped A must raise"""
     import pyteal as pt
@@ -211,6 +257,8 @@ def run_case(case, col=None):
                 break
     if res is False and not compatible(a, b) and case.get("call_sites"):
         out += check_call_sites(a, b)
+        if a[0] not in ("txn", "ref") and b[0] not in ("txn", "ref"):
+            out += check_store_into(a, b)
     if not compatible(a, b) and a[0] not in ("txn", "ref") and b[0] not in ("txn", "ref", "tuple", "named"):
         out += check_set(a, b)
     if col:
